@@ -12,6 +12,7 @@ TECHNIQUE = ('runtime monitoring: agreement check over every public outcome acce
 RULE = ('programs (ending by value / Stop / UnsuccessfulResult / Kill command / exception / missing required output) x placements of K<=2 '
         '(thorough: sampled K=3) requests from {pause,play,kill,resume} at every slot, kills issued from every listener notification and from '
         'step functions; distinct by (program, plan); non-trivial when the process terminated')
+RULE += ('; also: observers that raise from every notification (unprintable exceptions at the endings), listeners registered twice, cleanups that register cleanups, recreated processes whose future is cancelled, falsy exception objects, the future handed out before the run compared with the one handed out after it, and an end-of-test audit of every process the repository\'s own test suite terminates')
 ASSUMPTIONS = ['expected outcome is computed from the program text and the request log, not read back from the process',
                'hooks do not raise (C03 owns that)']
 REQUIRED = ['suite_audits', 'terminated', 'final/finished', 'final/excepted', 'final/killed', 'kill_while_paused', 'kill_in_step', 'kill_from_listener',
